@@ -26,10 +26,20 @@ PROOF_UNITS = {
 
 # property id -> list of bounded part names (functions in bounded/parts.py)
 BOUNDED_PARTS = {
+    'C01': ['c01_presence'],
+    'C02': ['c02_queries'],
+    'C03': ['c03_canonical'],
+    'C04': ['c04_snapshots'],
+    'C05': ['c05_stream'],
+    'C06': ['c06_time_slice'],
+    'C07': ['c07_rejected_leaves_no_trace'],
+    'C08': ['c08_accumulative'],
+    'C16': ['c16_conversions'],
 }
 
 LEVELS = {
     'C01': 'other', 'C03': 'other', 'C04': 'other', 'C05': 'other', 'C07': 'other', 'C08': 'other',
+    'C02': 'exploration', 'C06': 'exploration', 'C16': 'exploration',
 }
 
 EXPLANATIONS = {
